@@ -167,6 +167,24 @@ impl WeightedShuffle {
     }
 }
 
+/// Verification hook: drives the crate-private [`WeightedShuffle`] from outside the crate.
+#[cfg(feature = "verif-hooks")]
+#[derive(Clone)]
+pub struct VerifWeightedShuffle(WeightedShuffle);
+
+#[cfg(feature = "verif-hooks")]
+impl VerifWeightedShuffle {
+    /// Builds the shuffle over the given stakes exactly as Turbine does.
+    pub fn new(stakes: &[u64]) -> Self {
+        Self(WeightedShuffle::new(stakes.iter().map(|s| Stake::new(*s))))
+    }
+
+    /// Draws up to `max` further indices from the shuffle.
+    pub fn draw<R: Rng>(&mut self, rng: &mut R, max: usize) -> Vec<usize> {
+        self.0.shuffle(rng).take(max).collect()
+    }
+}
+
 // Maps number of items to the number of "internal" nodes of the tree
 // which "implicitly" holds those items on the leaves.
 // Nodes without children are never accessed and don't need to be
